@@ -1,13 +1,16 @@
 import WM.Lemmas.QualityTree
 import WM.Lemmas.ScoringMono
 import WM.Lemmas.ReplaceRest
+import WM.Lemmas.CoordMono
 /-!
 # C12 — quality bounds are true upper bounds on scores
 
 `WQ PB s m`: the tree `m` is well formed (C11), scores are non-negative, block/term statistics of the posting
 lists are true aggregates, the leaf scorers are monotone, every boost satisfies `PB` and every part whose
 quality is consulted supports block quality.  `W0 PB` is the same without the support requirement.
-All statements are for every shape, state and threshold (also 0, negative, above the maximum).
+All statements are for every shape (MultiMatcher and ArrayUnionMatcher nodes included; for the latter the
+invariant also asks for positive scores and a positive boost, without which the class drops documents), state and
+threshold (also 0, negative, above the maximum).
 -/
 namespace WM.C12
 open WM.Matcher
@@ -104,6 +107,11 @@ example : ¬ replace_keeps_full := by
 def exUnionHalf : St (.boost (.union .list .list)) :=
   ⟨⟨⟨[1, 3], [1, 1], 0, true⟩, ⟨[3, 5], [1, 1], 0, true⟩⟩, 1/2⟩
 
+/-- … it satisfies the hypothesis of `replace_keeps_partial` -/
+example : W0 Unit01 _ exUnionHalf := by
+  have nn : ∀ w ∈ ([1, 1] : List Rat), 0 ≤ w := by decide +kernel
+  exact ⟨⟨⟨⟨by decide, rfl⟩, nn⟩, ⟨⟨by decide, rfl⟩, nn⟩⟩, by decide +kernel⟩
+
 example : ((replace _ exUnionHalf (3/2)).toOption.map fun out => out.2.den) = some [(3, 1)] ∧
     den _ exUnionHalf = [(1, 1/2), (3, 1), (5, 1/2)] := by
   constructor <;> decide +kernel
@@ -118,6 +126,43 @@ theorem bm25_mono {idf avgfl B K1 : Rat} (hidf : 0 ≤ idf) (havg : 0 < avgfl) (
 theorem tfidf_mono {idf : Rat} (h : 0 ≤ idf) : Monotone2 (tfidfScore idf) := WM.Matcher.tfidf_mono h
 
 theorem freq_mono : Monotone2 freqScore := WM.Matcher.freq_mono
+
+/-- the composition: a posting list scored with BM25F (non-negative idf, positive average field length, `B` in
+    [0, 1], non-negative `K1`) whose stored block/term statistics are true aggregates of non-negative weights
+    satisfies `leaf_bound` - `block_quality()` bounds every entry of the block, `max_quality()` every entry of the list -/
+theorem bm25_leaf_bound (m : LeafM) (h : LeafM.WF m) {idf avgfl B K1 : Rat} (hsc : m.sc = bm25 idf avgfl B K1)
+    (hidf : 0 ≤ idf) (havg : 0 < avgfl) (hB0 : 0 ≤ B) (hB1 : B ≤ 1) (hK : 0 ≤ K1)
+    (hblock : ∀ Bk ∈ m.blocks, ∀ p ∈ Bk.posts, p.weight ≤ Bk.maxWeight ∧ Bk.minLength ≤ p.length)
+    (hterm : ∀ Bk ∈ m.blocks, Bk.maxWeight ≤ m.termMaxWeight ∧ m.termMinLength ≤ Bk.minLength)
+    (hnn : ∀ Bk ∈ m.blocks, 0 ≤ Bk.maxWeight ∧ ∀ p ∈ Bk.posts, 0 ≤ p.weight) :
+    (∀ p ∈ (m.blocks[m.b]'h.2.1).posts, m.sc p.weight p.length ≤ m.blockQualityV) ∧
+    (∀ Bk ∈ m.blocks, ∀ p ∈ Bk.posts, m.sc p.weight p.length ≤ m.sc m.termMaxWeight m.termMinLength) := by
+  refine leaf_bound m h ⟨hblock, hterm, hnn, ?_, ?_⟩
+  · rw [hsc]
+    intro w w' l l' h0 h1 h2
+    exact WM.Matcher.bm25_mono hidf havg hB0 hB1 hK w w' l l' h0 h1 h2
+  · intro Bk hBk p hp
+    rw [hsc]
+    exact WM.Matcher.bm25_nonneg hidf havg hB0 hB1 hK _ ((hnn Bk hBk).2 p hp)
+
+/-! ## CoordMatcher (`Or(..., scale=c)`): the formulas only; the class itself is walked end-to-end -/
+
+/-- `max_quality()`/`block_quality()` of `CoordMatcher` (`_sqr(child bound, termcount)`) bound the coordinated score
+    `_sqr(child score, matching terms)`: the formula is monotone in both arguments (at least one term, `termcount ≠
+    scale`) -/
+theorem coord_bound {T c s S k : Rat} (hT : 1 ≤ T) (hc : T ≠ c) (hs : s ≤ S) (hk : k ≤ T) :
+    coordSqr T c s k ≤ coordSqr T c S T :=
+  coordSqr_mono hT hc hs hk
+
+/-- the threshold handed to the child by the repaired `skip_to_quality`/`replace` (`_child_quality(q)`) is safe: a
+    document whose child score is at or below it scores at most `q` here, however many terms match -/
+theorem coord_threshold {T c q s k : Rat} (hT : 1 < T) (hc : T ≠ c) (hk : k ≤ T) (hs : s ≤ coordChild T c q) :
+    coordSqr T c s k ≤ q :=
+  WM.Matcher.coord_threshold hT hc hk hs
+
+/-- … while the unconverted threshold (what the pinned tree hands down) is not: two terms, scale 1/2, threshold
+    3/10 - a document with child score 3/10 (so passed over by the child) on which both terms match scores 67/180 -/
+example : coordSqr 2 (1/2) (3/10) 2 = 67/180 ∧ ¬ coordSqr 2 (1/2) (3/10) 2 ≤ 3/10 := by decide +kernel
 
 /-! ## non-vacuity -/
 
@@ -160,6 +205,29 @@ example : WQ Pos .leaf exLeaf := ⟨exLeaf_wf, exLeaf_qdata⟩
 example : ((LeafM.ops.skipToQuality exLeaf 4).toOption.map fun r => (r.1.den, r.2)) = some ([(20, 6)], 2) ∧
     exLeaf.den = [(5, 4), (9, 2), (11, 1), (20, 6)] := by
   constructor <;> decide +kernel
+
+/-- a `MultiMatcher` over two segments: `max_quality()` is the maximum over the sub-matchers that are left,
+    `block_quality()` the current sub-matcher's, `replace(5/2)` passes over the first segment (its maximum is 2)
+    and `skip_to_quality(2)` steps off it -/
+def exMulti : Any := mkMulti .list [(⟨[5, 9], [1, 2], 0, true⟩, 0), (⟨[2, 7], [3, 1], 0, true⟩, 30)]
+
+example : exMulti.den = [(5, 1), (9, 2), (32, 3), (37, 1)] ∧ exMulti.maxQuality.toOption = some 3 ∧
+    ((ops exMulti.1).blockQuality exMulti.2).toOption = some 2 ∧
+    ((exMulti.replace (5/2)).toOption.map (·.den)) = some [(32, 3), (37, 1)] ∧
+    (((ops exMulti.1).skipToQuality exMulti.2 2).toOption.map fun r => den exMulti.1 r.1) = some [(32, 3), (37, 1)] := by
+  refine ⟨?_, ?_, ?_, ?_, ?_⟩ <;> decide +kernel
+
+/-- an `ArrayUnionMatcher` (part size 4) over two lists: `block_quality()` is the best score of the buffered part,
+    `max_quality()` also covers what the sub-matchers still hold, `skip_to_quality(3)` passes over the first part
+    (best score 1) and lands on document 5 (score 4) -/
+def exAUnion : R Any :=
+  mkAUnion .list [⟨[1, 5, 9], [1, 2, 3], 0, true⟩, ⟨[2, 5, 30], [1, 2, 3], 0, true⟩] 40 1 4
+
+example : (exAUnion.bind fun m => (ops m.1).blockQuality m.2).toOption = some 1 ∧
+    (exAUnion.bind fun m => (ops m.1).maxQuality m.2).toOption = some 6 ∧
+    (exAUnion.bind fun m => (ops m.1).skipToQuality m.2 3 |>.map fun r => den m.1 r.1).toOption =
+      some [(5, 4), (9, 3), (30, 3)] := by
+  refine ⟨?_, ?_, ?_⟩ <;> decide +kernel
 
 /-- BM25F with the default parameters satisfies the hypotheses of `bm25_mono` -/
 example : bm25 2 10 (3/4) (6/5) 1 20 ≤ bm25 2 10 (3/4) (6/5) 3 5 :=
